@@ -9,8 +9,8 @@ from common import *
 IMPORTS = "Spawn.Model"
 KINDS = {0: "spawn", 1: "spawn_linked", 2: "spawn_instant", 3: "spawn_linked_instant",
          4: "tl_spawn", 5: "tl_spawn_linked", 6: "tl_spawn_instant", 7: "tl_spawn_linked_instant",
-         8: "ActorCell::spawn_linked", 9: "spawn_linked_remote(local id)"}
-LINKED = (1, 3, 5, 7, 8, 9)
+         8: "ActorCell::spawn_linked", 9: "spawn_linked_remote(local id)", 10: "spawn_linked_remote(remote id)"}
+LINKED = (1, 3, 5, 7, 8, 9, 10)
 TL = (4, 5, 6, 7)
 INSTANT = (2, 3, 6, 7)
 SUP_INIT = {"none": ("None", 2, False), "run": ("(Some 4)", 2, False), "draining": ("(Some 4)", 4, False),
@@ -31,7 +31,7 @@ def init_term(s):
         sp = "None"
     scr = "[" + "; ".join(EFF[t] for t in s["script"]) + "]"
     return (f"init {b(s['named'])} {sp} {b(s['kind'] in TL)} {scr} {FIN[s['fin']]} "
-            f"{'(Some 9)' if s['holder'] else 'None'} {sst} {b(scl)}")
+            f"{'(Some 9)' if s['holder'] else 'None'} {sst} {b(scl)} {b(s['kind'] == 10)}")
 
 
 def b(x):
@@ -187,6 +187,10 @@ def build(rng, kind, named, holder, sup, script, fin, cause, cut, early=None, en
     tag = cause if cause != "none" else fin
     if queued not in (None, "none"):
         tag = "queued-" + queued
+    if kind == 10:
+        # a message of a non-serializable type cannot even be boxed for a remote id: sends are refused for a
+        # reason that has nothing to do with the spawn; keep them out and do not compare the send probe
+        ops = [o for i, o in enumerate(ops) if o not in ("cast", "call")]
     return {"kind": kind, "named": named, "holder": holder, "sup": sup, "script": script, "fin": fin,
             "ops": ops, "tag": f"{KINDS[kind]}:{tag}"}
 
@@ -194,7 +198,7 @@ def build(rng, kind, named, holder, sup, script, fin, cause, cut, early=None, en
 def gen_systematic(rng):
     out = []
     script = ["j1", "m2", "a", "g", "l", "g"]
-    for kind in range(10):
+    for kind in range(11):
         linked = kind in LINKED
         sups = ["run", "draining", "stopping", "dead"] if linked else ["none"]
         for sup in sups:
@@ -207,6 +211,14 @@ def gen_systematic(rng):
             out.append(build(rng, kind, True, False, sups[0], script, "ok", "none", 0, early=early))
         # name taken
         out.append(build(rng, kind, True, True, sups[0], script, "ok", "none", 0, env=1))
+        if kind == 10:
+            # a remote-id cell named like a LIVE LOCAL actor, failing by each cause: the holder must keep its name
+            for sup in ("run", "draining", "stopping", "dead"):
+                for fin in ("err", "panic", "ok"):
+                    out.append(build(rng, kind, True, True, sup, script, fin, "none", 0, env=1))
+                for cause in ("kill", "abort", "drain", "supkill", "supstop") if sup == "run" else ():
+                    for cut in (0, 1):
+                        out.append(build(rng, kind, True, True, sup, script, "ok", cause, cut, env=1))
         # thread-local: the spawn future dropped / the actor killed / drained / the supervisor killed while
         # the start request is still queued at a busy spawner
         if kind in TL:
@@ -220,14 +232,14 @@ def gen_systematic(rng):
 def gen_random(rng, count):
     out = []
     for _ in range(count):
-        kind = rng.choice([0, 1, 2, 3, 4, 5, 6, 7, 8, 8, 9])
+        kind = rng.choice([0, 1, 2, 3, 4, 5, 6, 7, 8, 8, 9, 10, 10])
         linked = kind in LINKED
         queued = None
         if kind in TL and rng.random() < 0.45:
             queued = rng.choice(["abort", "abort", "kill", "drain", "none"] + (["supkill"] if linked else []))
         # a queued non-instant thread-local spawn can only be reached through the registry
         named = True if (queued is not None and kind in (4, 5)) else rng.random() < 0.6
-        holder = named and queued is None and rng.random() < 0.15
+        holder = named and queued is None and rng.random() < (0.7 if kind == 10 else 0.15)
         sup = rng.choice(["run", "run", "draining", "stopping", "dead"]) if linked else "none"
         if queued == "supkill":
             sup = "run"
@@ -291,7 +303,7 @@ def run(chk):
         exprs.append(f"run_chunks {chunks_term(chunks_for(s))} ({init_term(s)})")
     for s, it in zip(scns, impl_t):
         final = show_term(it[1][-1])
-        exprs.append(f"(check_C08 {final}, check_clash {final})")
+        exprs.append(f"(check_C08 {final}, check_clash {final}, check_C08_holder {final})")
     vals = coq_eval("C08", IMPORTS, exprs)
     N = len(scns)
     distinct = set()
@@ -314,8 +326,12 @@ def run(chk):
                 f"spawn result: {show_term(res)}   cell existed: {existed}\n"
                 f"impl : {show_term(iv)}\nmodel: {vals[i]}\n")
         bad = None
+        reused = "reuse" in s["ops"]
         if failed and existed == "true" and oracle[1] != "true":
             bad = "check_C08 (residue_free on the implementation's final observation) is false: " + explain(iv[-1])
+        elif failed and existed == "true" and s["holder"] and not reused and oracle[3] != "true":
+            bad = ("check_C08_holder is false: the failed spawn carried the name of a live actor and that holder "
+                   "no longer owns the name (registry::where_is(name) is not the running holder)")
         elif failed and existed != "true" and s["holder"] and oracle[2] != "true":
             bad = "check_clash is false: the name clash disturbed the holder or left something of the new actor"
         if bad:
@@ -342,6 +358,8 @@ def mask_unseen(s, obs_list, impl_list):
     """A non-instant thread-local spawn that fails before pre_start runs (supervisor link refused at the
     very beginning) never hands its cell to anybody: its status cannot be read through any public API.
     Where the implementation's observation has no cell (status 0) the status field is not compared."""
+    if s["kind"] == 10:
+        return [tuple(o[:13]) + ("false",) + tuple(o[14:]) for o in obs_list]
     if s["kind"] not in (4, 5):
         return obs_list
     out = []
